@@ -638,7 +638,8 @@ class _CollinearDynamicsService(_LibrationDynamicsService):
         tuple
             (s1, s2) scale factors for the hyperbolic and elliptic components.
         """
-        cache_key = self.make_key(id(self.domain_obj), "scale_factor")
+        # The scale factors are a function of the arguments: they belong in the key
+        cache_key = self.make_key(id(self.domain_obj), "scale_factor", float(lambda1), float(omega1))
         
         def _factory() -> Tuple[float, float]:
             return self._compute_scale_factor(lambda1, omega1)
